@@ -74,6 +74,13 @@ def aux_framer(name, kind="repeat1", ctxs=("enter", "exit", "recur")):
        now     : single frame that does `done` on entry (completes in its first run)
        guard1  : like repeat1 but first frame guarded by e1"""
     x1, x2 = name + "1", name + "2"
+    if kind == "donemid":
+        # completes in a NON-terminal frame and keeps transitioning afterwards (done must stay set)
+        x3 = name + "3"
+        frames = [dict(name=x1, items=recs(x1, ctxs) + [("repeat", 1)]),
+                  dict(name=x2, items=recs(x2, ctxs) + [("done", "enter", None), ("repeat", 1)]),
+                  dict(name=x3, items=recs(x3, ctxs) + [("go", "me", [("recurred", ">=", 2, False)])])]
+        return dict(name=name, schedule="aux", frames=frames)
     if kind == "never":
         frames = [dict(name=x1, items=recs(x1, ctxs))]
     elif kind == "now":
@@ -203,7 +210,7 @@ def fam_plain_aux(quick=True):
         "taskerdone": {1: [("go", "f2", [("done", "x", False)])], 2: [("go", "f3", [("done", "y", True), E1])],
                        3: [("go", "f0", [E0])]},
     }
-    kinds = ("repeat1", "never", "now")
+    kinds = ("repeat1", "never", "now", "donemid")
     slots_all = list(itertools.product((None, "x", "y", "xy", "yx"), repeat=4))
     for xkind in kinds:
         for vname, var in variants.items():
@@ -512,3 +519,66 @@ def fam_clones():
                             framers=[dict(name="m", schedule="active", frames=[dict(name="f0", items=f0), dict(name="f1", items=f1),
                                                                              dict(name="f2", items=f2)])] + moots)
                 yield ("clones/rear%d/raze-%s/%s" % (nrear, who, rear_ctx), prog, dict())
+
+
+# ------------------------------------------------------------------------------- restart (C06 / C03 / C07)
+
+def fam_restart():
+    """A framer with a nested outline is stopped (or aborts / completes as an auxiliary) and later activated
+    again on the same frames; enter order must again be top-down and the final exits bottom-up."""
+    ctxs = ("enter", "exit", "recur")
+    def chain(prefix, depth):
+        names = ["%s%d" % (prefix, i) for i in range(depth)]
+        return [dict(name=nm, over=names[i - 1] if i else None, items=recs(nm, ctxs)) for i, nm in enumerate(names)]
+    for depth in (2, 3):
+        # (1) scheduled framer y stopped by x on e0 and started again on e1
+        yframes = chain("y", depth)
+        x = dict(name="x", schedule="active", frames=[
+            dict(name="x0", items=recs("x0", ctxs) + [("go", "x1", [E0])]),
+            dict(name="x1", items=recs("x1", ctxs) + [("bid", "enter", "stop", ["y"], None), ("go", "x2", [E1])]),
+            dict(name="x2", items=recs("x2", ctxs) + [("bid", "enter", "start", ["y"], None), ("go", "x0", [E0])])])
+        for decl in ("xy", "yx"):
+            y = dict(name="y", schedule="active", frames=yframes)
+            yield ("restart/bid/depth%d/%s" % (depth, decl),
+                   dict(tick=0.125, inits=list(ENV_INITS), framers=[x, y] if decl == "xy" else [y, x]), dict())
+        # (2) plain auxiliary with a nested outline, its main frame left on e0 and re-entered on e1
+        aux = dict(name="a", schedule="aux", frames=chain("a", depth))
+        m = dict(name="m", schedule="active", frames=[
+            dict(name="f0", items=recs("f0", ctxs) + [("aux", "a"), ("go", "f1", [E0]), ("go", "me", [E1])]),
+            dict(name="f1", items=recs("f1", ctxs) + [("go", "f0", [E1])])])
+        yield ("restart/aux/depth%d" % depth, dict(tick=0.125, inits=list(ENV_INITS), framers=[m, aux]), dict())
+        # (3) conditional auxiliary with a nested outline that completes and is started again
+        caux = dict(name="a", schedule="aux", frames=chain("a", depth) + [dict(name="az", items=recs("az", ctxs) + [("done", "enter", None)])])
+        caux["frames"][depth - 1]["items"] = caux["frames"][depth - 1]["items"] + [("go", "az", [E1])]
+        m = dict(name="m", schedule="active", frames=[
+            dict(name="f0", items=recs("f0", ctxs) + [("auxif", "a", [E0])]),
+            dict(name="f1", over="f0", items=recs("f1", ctxs))])
+        yield ("restart/condaux/depth%d" % depth, dict(tick=0.125, inits=list(ENV_INITS), framers=[m, caux]), dict())
+        # (4) slave with a nested outline stopped and started by fiats
+        sl = dict(name="s", schedule="slave", frames=chain("s", depth))
+        m = dict(name="m", schedule="active", frames=[
+            dict(name="f0", items=recs("f0", ctxs) + [("fiat", "enter", "start", "s"), ("fiat", "exit", "stop", "s"), ("go", "f1", [E0])]),
+            dict(name="f1", items=recs("f1", ctxs) + [("go", "f0", [E1])])])
+        yield ("restart/slave/depth%d" % depth, dict(tick=0.125, inits=list(ENV_INITS), framers=[m, sl]), dict())
+
+
+# ------------------------------------------------------------------------------- clones x markers (C12)
+
+def fam_clone_markers():
+    """The same moot (waiting on `x is updated|changed`, an ABSOLUTE share) cloned under two different main framers
+    with colliding tags (both `as mine` / both the same name), and twice under one framer: every clone must react to
+    a write of x exactly as the original would alone."""
+    ctxs = ("enter", "exit")
+    for kind in ("updated", "changed"):
+        for inframe in (None, "me"):
+            mo = dict(name="mw", schedule="moot", frames=[
+                dict(name="w0", items=recs("w0", ctxs) + [("go", "next", [(kind, "x", inframe, None, False)])]),
+                dict(name="w1", items=recs("w1", ctxs) + [("put", "enter", 1, "hits of framer"), ("go", "w0", [(kind, "x", inframe, None, False)])])])
+            for tags in (("mine", "mine"), ("c", "c")):
+                m1 = dict(name="m1", schedule="active", frames=[dict(name="f0", items=recs("f0", ctxs) + [("auxclone", "mw", tags[0])])])
+                m2 = dict(name="m2", schedule="active", frames=[dict(name="g0", items=recs("g0", ctxs) + [("auxclone", "mw", tags[1])])])
+                yield ("clonemarkers/%s/%s/two-mains/%s" % (kind, inframe, "+".join(tags)),
+                       dict(tick=0.125, inits=[("x", 0)], framers=[m1, m2, mo]), dict(kind="xwrites"))
+            m1 = dict(name="m1", schedule="active", frames=[dict(name="f0", items=recs("f0", ctxs) + [("auxclone", "mw", "mine"), ("auxclone", "mw", "c")])])
+            yield ("clonemarkers/%s/%s/one-main" % (kind, inframe),
+                   dict(tick=0.125, inits=[("x", 0)], framers=[m1, mo]), dict(kind="xwrites"))
